@@ -1,0 +1,18 @@
+//! Deterministic seeding of the BBR gain-cycle random number generator, for the external
+//! verification harness
+//!
+//! Compiled only with the private `__verif` feature.
+
+use rand::SeedableRng;
+use rand_pcg::Pcg32;
+
+use super::Bbr;
+
+impl Bbr {
+    /// Replace the internal random number generator by one seeded with `seed`
+    ///
+    /// `Bbr::new` seeds from OS entropy, which makes call histories irreproducible.
+    pub fn verif_reseed(&mut self, seed: u64) {
+        self.random_number_generator = Pcg32::seed_from_u64(seed);
+    }
+}
